@@ -135,16 +135,36 @@ impl World {
             Delay { left: pend, val: Some(if terr { Err(FakeErr(9)) } else { Ok(reply.clone()) }) }
         }));
         let c = &self.client;
+        // `request_async` is CALLED here, when the future is created; nothing may happen before the future is first polled
         match q.kind {
-            0 => Box::pin(async move { out(c.exchange_code(AuthorizationCode::new("co de".into())).add_extra_param("k", "v&w").add_extra_param("a", "1").request_async(http).await) }),
-            1 => Box::pin(async move { out(c.exchange_refresh_token(&self.rt).add_scope(Scope::new("z".into())).add_scope(Scope::new("a".into())).add_extra_param("e2", "2").add_extra_param("e1", "1").request_async(http).await) }),
-            2 => Box::pin(async move {
-                out(c.exchange_password(&self.user, &self.pass).add_scope(Scope::new("z".into())).add_scope(Scope::new("b".into())).add_extra_param("e2", "2").add_extra_param("e1", "1").request_async(http).await)
-            }),
-            3 => Box::pin(async move { out(c.exchange_client_credentials().add_scope(Scope::new("z".into())).add_scope(Scope::new("a".into())).add_extra_param("e2", "2").add_extra_param("e1", "1").request_async(http).await) }),
-            4 => Box::pin(async move { out::<StandardDeviceAuthorizationResponse, _>(c.exchange_device_code().add_scope(Scope::new("z".into())).add_scope(Scope::new("d".into())).add_extra_param("e2", "2").add_extra_param("e1", "1").request_async(http).await) }),
-            6 => Box::pin(async move { out(c.introspect(&self.at).set_token_type_hint("access_token").add_extra_param("e2", "2").add_extra_param("e1", "1").request_async(http).await) }),
-            _ => Box::pin(async move { out(c.revoke_token(StandardRevocableToken::AccessToken(self.at.clone())).unwrap().add_extra_param("e2", "2").add_extra_param("e1", "1").request_async(http).await) }),
+            0 => {
+                let f = c.exchange_code(AuthorizationCode::new("co de".into())).add_extra_param("k", "v&w").add_extra_param("a", "1").request_async(http);
+                Box::pin(async move { out(f.await) })
+            },
+            1 => {
+                let f = c.exchange_refresh_token(&self.rt).add_scope(Scope::new("z".into())).add_scope(Scope::new("a".into())).add_extra_param("e2", "2").add_extra_param("e1", "1").request_async(http);
+                Box::pin(async move { out(f.await) })
+            },
+            2 => {
+                let f = c.exchange_password(&self.user, &self.pass).add_scope(Scope::new("z".into())).add_scope(Scope::new("b".into())).add_extra_param("e2", "2").add_extra_param("e1", "1").request_async(http);
+                Box::pin(async move { out(f.await) })
+            },
+            3 => {
+                let f = c.exchange_client_credentials().add_scope(Scope::new("z".into())).add_scope(Scope::new("a".into())).add_extra_param("e2", "2").add_extra_param("e1", "1").request_async(http);
+                Box::pin(async move { out(f.await) })
+            },
+            4 => {
+                let f = c.exchange_device_code().add_scope(Scope::new("z".into())).add_scope(Scope::new("d".into())).add_extra_param("e2", "2").add_extra_param("e1", "1").request_async(http);
+                Box::pin(async move { out::<StandardDeviceAuthorizationResponse, _>(f.await) })
+            },
+            6 => {
+                let f = c.introspect(&self.at).set_token_type_hint("access_token").add_extra_param("e2", "2").add_extra_param("e1", "1").request_async(http);
+                Box::pin(async move { out(f.await) })
+            },
+            _ => {
+                let f = c.revoke_token(StandardRevocableToken::AccessToken(self.at.clone())).unwrap().add_extra_param("e2", "2").add_extra_param("e1", "1").request_async(http);
+                Box::pin(async move { out(f.await) })
+            },
         }
     }
 }
@@ -185,11 +205,11 @@ impl CaseInput for AsyncCase {
             let sb = new_seen();
             let ob = w.blocking(q, sb.clone());
             let sa = new_seen();
-            let oa = if self.executor == 0 {
-                drive(w.future(q, sa.clone())).0
-            } else {
-                tokio::runtime::Builder::new_current_thread().build().unwrap().block_on(w.future(q, sa.clone()))
-            };
+            let fut = w.future(q, sa.clone());
+            if !sa.borrow().is_empty() {
+                oracle.push(("C17:work-before-first-poll".into(), format!("request #{i} kind {}: the HTTP client was called when the future was CREATED, before its first poll", q.kind)));
+            }
+            let oa = if self.executor == 0 { drive(fut).0 } else { tokio::runtime::Builder::new_current_thread().build().unwrap().block_on(fut) };
             if ob != oa {
                 oracle.push(("C17:variants-differ".into(), format!("request #{i} kind {}: blocking {ob:?} vs future-based {oa:?}", q.kind)));
             }
@@ -209,6 +229,12 @@ impl CaseInput for AsyncCase {
         if self.reqs.len() > 1 {
             let seens: Vec<Seen> = self.reqs.iter().map(|_| new_seen()).collect();
             let mut futs: Vec<Option<BoxFut>> = self.reqs.iter().zip(seens.iter()).map(|(q, s)| Some(w.future(q, s.clone()))).collect();
+            // futures are inert until polled: creating all of them must not have reached the HTTP client
+            for (i, s) in seens.iter().enumerate() {
+                if !s.borrow().is_empty() {
+                    oracle.push(("C17:work-before-first-poll".into(), format!("request #{i} kind {}: the HTTP client was called when the future was CREATED, before its first poll", self.reqs[i].kind)));
+                }
+            }
             let mut outs: Vec<Option<String>> = vec![None; futs.len()];
             let mut cx = Context::from_waker(Waker::noop());
             let mut si = 0usize;
